@@ -78,6 +78,8 @@ def gen_structure(seed, tier, i):
         return structures.gen_broom(s)
     if mode < 0.3515:
         return structures.gen_far_knot(s)
+    if 0.40 <= mode < 0.43:
+        return structures.gen_gapped_helix(s)
     if mode < 0.3535:
         # ribosomal-RNA size: about 4 000 positions and 300-450 stems (the 6EK0 test input has 3 929 and 410)
         return structures.gen_large(s, 300, 450)
@@ -138,6 +140,13 @@ def phase_a(seed, tier, i, st):
         steps.append(dict(obj, via="argument", backend=cfg.choice(["sim-api", "cbc-wrapper"]),
                           fault={"kind": "ok", "tie": cfg.randrange(1 << 12)}))
         steps.append(dict(obj, via="property", backend="sim-api", fault={"kind": "ok", "tie": cfg.randrange(1 << 12)}))
+    if knotted and i % 5 == 3:
+        # an answer pulp calls Optimal although the solver merely stopped with a feasible assignment of its own accord:
+        # nothing says it is optimal, but "crossing stems never share a bracket level" has to hold for it too
+        steps.append(dict(base, via="argument", backend="cbc-wrapper", proper_only=True,
+                          fault={"kind": "stopped_incumbent", "tie": cfg.randrange(1 << 12)}))
+        steps.append(dict(base, via="property", backend="highs-wrapper", proper_only=True,
+                          fault={"kind": "timelimit_feasible", "tie": cfg.randrange(1 << 12)}))
     if knotted and i % 3 == 2 and len(st["triples"]) <= 400 and not st["family"].startswith("farknot"):
         # derived objects: what the library builds from this structure has a notation of its own to get right
         stem_list = oracles.stems(pairs)
